@@ -2676,7 +2676,7 @@ def rule_whole_sequences(F, R, which):
     listing of main build their results from whole sequences - no `skip`, `take`, `step_by`, `skip_while`, `take_while`, `nth`, `last` anywhere in
     them (an element dropped from one of these lists is a node missing from the export, a variable missing from the ordering)"""
     lib, binc = F.lib(), F.bin()
-    FORBID = ('skip', 'take', 'step_by', 'skip_while', 'take_while', 'nth', 'last', 'truncate', 'pop', 'swap_remove', 'drain', 'split_off')
+    FORBID = ('skip', 'take', 'step_by', 'skip_while', 'take_while', 'nth', 'last')          # iterator adaptors only: a work stack (`pending.pop()`) is how an iterative walker is written
     groups = {
         'dot': (lib, lambda n: n.startswith('rsbdd::bdd_io::BDDGraph::') or 'bdd_io::BDDGraph' in n and 'GraphWalk' in n),
         'parsetree': (lib, lambda n: n.startswith('rsbdd::parser_io::SymbolicParseTree::') or 'parser_io::SymbolicParseTree' in n and 'GraphWalk' in n),
